@@ -15,7 +15,12 @@ RULE = ("cases: the C07 universes whose nameservers have v4-only, v6-only or dua
 ASSUMPTIONS = [
     "oracle for the prefer-* modes: 'holds an address of the preferred family' is evaluated on what the resolver held before the "
     "first question (local zones and initial cache) -- holdings only grow during a case (fixed clock), so this never flags "
-    "correct behaviour; 'asks for the preferred family first' is checked on fault-free consistent universes",
+    "correct behaviour; 'asks for the preferred family first' is checked on fault-free consistent universes as: an upstream "
+    "lookup of the other family for a nameserver host comes with an upstream lookup of the preferred family for it in the same "
+    "resolution (the order of the two ATTEMPTS is C18_rtypes_of_mode; an attempt can fail without an exchange when the same "
+    "question is already being resolved -- seen in the stream: prefer-v4, cache holds `com. NS ns1.com.` without addresses, the "
+    "lookup of `ns1.com. A` needs ns1.com. itself, the nested attempt for A is a DuplicateQuestion and `ns1.com. AAAA` goes "
+    "upstream first)",
 ]
 TRUSTED = ["hooks H3 (in-memory UdpSocket/TcpStream) and H5 (sorted candidate order) in /repo under cfg(resolved_verif); "
            "the mock handler of harness/src/resolver.rs"]
@@ -25,7 +30,7 @@ PORTS = [53, 5353, 10053, 65535]
 
 
 def generate(rng, tier):
-    n = 240 if tier == "quick" else 6000
+    n = 320 if tier == "quick" else 6000
     batch = rg.Batch()
     builders = []
     fam_sets = [("4",), ("6",), ("46",), ("4", "6"), ("4", "6", "46")]
@@ -131,10 +136,15 @@ def oracle(case, impl, model):
                             return ("other-family-while-preferred-held",
                                     "contacted %s although an address of the preferred family was held for %s"
                                     % (e.ip, ",".join(sorted(rg.tokname(h) for h in own))))
-                    if (c.fault_free and c.consistent and e.kind == "U" and e.qtype == other_type and e.qname in hosts
-                            and e.qname not in asked_names):
-                        if not any(p.kind == "U" and p.qname == e.qname and p.qtype == pref_type for p in r.log[:idx]):
-                            return ("other-family-asked-first", "looked up %s type %d without asking for type %d first"
+                    # the preferred family is asked for first: the attempt for the preferred type may fail without an
+                    # exchange (the same question is already being resolved further out: DuplicateQuestion) and the
+                    # other type then goes upstream first -- but then the outer lookup of the preferred type is in
+                    # progress and shows up in the same log; so: an upstream lookup of the other family for a host,
+                    # with no lookup of the preferred family for it anywhere in that resolution, is a failure
+                    if (c.fault_free and c.consistent and c.flags.get("modeok") == "1" and e.kind == "U"
+                            and e.qtype == other_type and e.qname in hosts and e.qname not in asked_names):
+                        if not any(p.kind == "U" and p.qname == e.qname and p.qtype == pref_type for p in r.log):
+                            return ("other-family-asked-first", "looked up %s type %d without asking for type %d"
                                     % (rg.tokname(e.qname), other_type, pref_type))
     except Exception:  # malformed output is a correspondence matter
         return None
